@@ -1,8 +1,9 @@
 (* Proofs/TreeSyncConverge.v — C01, part 2: stored sets only grow, the universe is exactly the union of the stored
    sets, and convergence of a phase without local adds from per-pair catch-up.
-   NOT proved here (see Properties/C01.v): that one lossless request/response exchange achieves the catch-up
-   (completeness of the response beyond the common snapshot + success of attach / rebuild under the snapshot
-   discipline).  The one-pass attach is proved complete for offered sets that are closed ([attach_pass_complete]). *)
+   That one lossless request/response exchange achieves the catch-up is proved in Proofs/TreeSyncSnapshot.v (snapshot
+   discipline) and Proofs/TreeSyncExchange.v (completeness of the response beyond the common snapshot, success of
+   attach / rebuild); the unconditional convergence theorem is there and in Proofs/TreeSyncHeads.v.
+   The one-pass attach is proved complete for offered sets that are closed ([attach_pass_complete]). *)
 From Coq Require Import List NArith Bool Arith Lia.
 Import ListNotations.
 From AnySync Require Import Lib.Dag Model.Dfs Model.Tree Model.LoadIter Model.TreeSync Proofs.DfsBase Proofs.TreeSyncClosure.
